@@ -26,8 +26,10 @@ Inductive lval :=
 
 (** resource.Resource: attribute set (sorted, as [Attributes()] returns it) + schema URL. *)
 Record resource := mkRes { r_attrs : list kv; r_schema : bytes }.
-(** instrumentation.Scope. *)
-Record scope := mkScope { sc_name : bytes; sc_version : bytes; sc_schema : bytes; sc_attrs : list kv }.
+(** instrumentation.Scope.  [sc_alloc]: the (empty) attribute set is an allocated empty set
+    ([attribute.NewSet()]) rather than the zero [attribute.Set]; both read as "no attributes" and encode to
+    the same bytes, but they are different Go values, hence different keys of the transform's scope map. *)
+Record scope := mkScope { sc_name : bytes; sc_version : bytes; sc_schema : bytes; sc_attrs : list kv; sc_alloc : bool }.
 
 (** One exported item (span / log record) with the resource and scope it belongs to. *)
 Record item (B : Type) := mkItem { it_res : resource; it_scope : scope; it_body : B }.
